@@ -192,3 +192,7 @@ func RunNative(h func()) (outcome string) {
 	h()
 	return "ok"
 }
+
+// GoCalls: the number of go statements executed so far on this path (symbolic executor only: goroutines are
+// recorded, not run; natively -1).
+func GoCalls() int { return -1 }
